@@ -16,7 +16,7 @@ GhostPost(e) ==
     CASE e.op.name = "ins" /\ e.res = "ok" /\ e.op.w16 > 0 ->
            [w16 |-> g.w16 + e.op.w16, xw16 |-> g.xw16 + e.op.x * e.op.w16,
             mn |-> IF e.op.x < g.mn THEN e.op.x ELSE g.mn, mx |-> IF e.op.x > g.mx THEN e.op.x ELSE g.mx,
-            any |-> TRUE, unit |-> g.unit /\ e.op.w16 = 16, n |-> g.n + 1]
+            any |-> TRUE, unit |-> g.unit /\ e.op.w16 = Hdr.unitw, n |-> g.n + 1]
       [] e.op.name = "clear" /\ e.res = "cleared" -> [w16 |-> 0, xw16 |-> 0, mn |-> INF, mx |-> -INF, any |-> FALSE, unit |-> TRUE, n |-> 0]
       [] OTHER -> g
 Mono(s) == \A k \in 1 .. (Len(s) - 1) : s[k] <= s[k + 1] + Tol
